@@ -391,7 +391,9 @@ static void processCase(const Case& c, int phase, FILE* out, unsigned seed)
   fflush(out);
 }
 
-// Dependence on history (same defect as above, seen from outside): a by-sample calculation with ONE
+// Dependence on history: the library keeps the index of the current direction in a file-static
+// variable that every pair loop has to set (a loop that forgets it stores its results under the
+// direction left by the previous calculation, possibly out of bounds).  A by-sample calculation with ONE
 // direction, fresh and after an ordinary calculation with TWO directions.  Run in a child process.
 static void historyProbe(FILE* out)
 {
